@@ -5,6 +5,8 @@
 
 static std::string g_scratch_base = "/dev/shm", g_replay_dir = "/verif/replays";
 static bool g_write_replays = true;
+// fixed-width scratch names: path lengths (PATH_MAX sweeps) must not depend on the process id
+static std::string pid7() { char b[16]; snprintf(b, sizeof b, "%07d", (int)getpid()); return b; }
 
 static void rm_rf(const std::string& p) {
     struct stat st; if (__real_lstat(p.c_str(), &st) != 0) return;
@@ -287,7 +289,7 @@ static std::string san_site(const std::string& err) {
 }
 static int run_plan(uint64_t idx, const Plan& p) {
     static int counter = 0;
-    std::string base = g_scratch_base + "/verif-e3-" + std::to_string((int)getpid());
+    std::string base = g_scratch_base + "/verif-e3-" + pid7();
     std::string root = base + "/r" + std::to_string(counter++ % 2);
     rm_rf(root); mkdirs(root);
     memset(S, 0, sizeof(Shared));
@@ -356,7 +358,7 @@ int main(int argc, char** argv) {
     }
     S = (Shared*)mmap(nullptr, sizeof(Shared), PROT_READ | PROT_WRITE, MAP_SHARED | MAP_ANONYMOUS, -1, 0);
     setvbuf(stdout, nullptr, _IOLBF, 0);
-    std::string base = g_scratch_base + "/verif-e3-" + std::to_string((int)getpid());
+    std::string base = g_scratch_base + "/verif-e3-" + pid7();
     mkdirs(base);
     int rc = 0;
     if (!replay.empty()) {
